@@ -67,7 +67,7 @@ def run(ctx):
          "no function adds names to a reservation list", key="G1|mechanism")
 
     def not_res(cb, t):
-        return cb.name not in res_star
+        return cb.name not in res
 
     # ---- G1a: what Map::new stores
     mb = [x for x in lib.real_bodies() if x.name.endswith("identifier::Map::new")]
@@ -83,7 +83,7 @@ def run(ctx):
                 kk = [strip(v) for v in keyt[3].values()]
                 kind = next((k[2] for k in kk if k[0] == "agg" and k[1].endswith("identifier::Type")), None)
             org = m.origins(cs.node["args"][2], transparent=lambda n: cname(n) in mir.VALUE_PRESERVING)
-            makers = [o[1] for o in org if o[0] == "call" and (o[1].node["callee"].get("path") in res_star or o[1].node["callee"].get("resolved") in res_star)]
+            makers = [o[1] for o in org if o[0] == "call" and (o[1].node["callee"].get("path") in res or o[1].node["callee"].get("resolved") in res)]
             ok = len(makers) == 1 and len([o for o in org if o[0] == "call"]) == 1
             reserved = kind_ok = False
             if ok:
@@ -94,7 +94,18 @@ def run(ctx):
                     if "identifier::Type" in ty:
                         kind_ok = ta[0] == "agg" and ta[2] == kind
                     elif "String" in ty or "str" in ty:
-                        reserved = (ta[0] == "call" and ta[1] in RESERVED_GUARDS) or (kind == "TextContent" and ta == ("const", "text"))
+                        norg = m.origins(a, transparent=lambda n: cname(n) not in RESERVED_GUARDS)
+                        reserved = any(o[0] == "call" and cname(o[1].node) in RESERVED_GUARDS for o in norg) or \
+                            (kind == "TextContent" and any(o == ("const", "text") for o in norg))
+                if not kind_ok:
+                    # the kind may be fixed further up (a wrapper inlined into this body): look at every Type-typed origin
+                    for a in mk.node["args"][1:]:
+                        if "identifier::Type" in arg_ty(m, a).get("s", ""):
+                            ko = m.origins(a)
+                            kinds = {o[1].node["rv"].get("variant") for o in ko if o[0] == "agg" and o[1].node["rv"].get("adt", "").endswith("identifier::Type")}
+                            kind_ok = kinds == {kind}
+                    if not any("identifier::Type" in arg_ty(m, a).get("s", "") for a in mk.node["args"][1:]):
+                        kind_ok = True  # the reservation function itself is kind-agnostic
                 p0 = mir.op_place(mk.node["args"][0])
                 lists.add(m.through_ref(p0)["l"] if p0 is not None else None)
             r.ob("G1.map-values-guarded", "%s: %s entries" % (mb[0].name, kind), ok and reserved and kind_ok,
